@@ -253,4 +253,154 @@ theorem reachable_steps {p : Prog} : ∀ (is : List Nat) {c : Cfg}, Reachable p 
   | nil => intro c h; exact h
   | cons i is ih => intro c h; exact ih (Reachable.step i h)
 
+/-! ## loader entries, per micro-step -/
+
+theorem dwcEnter_defs {g cx w save w2} (h : dwcEnter g cx w = some (save, w2)) : w2.defs = w.defs ∧ w2.nextLoader = w.nextLoader := by
+  unfold dwcEnter at h
+  split at h
+  · split at h
+    · cases h
+    · rename_i w1 hs
+      cases h
+      unfold tlSet at hs
+      split at hs
+      · cases hs
+      · cases hs; exact ⟨rfl, rfl⟩
+  · split at h
+    · cases h
+    · rename_i w1 hs
+      cases h
+      unfold tlSet at hs
+      split at hs
+      · cases hs
+      · cases hs; exact ⟨rfl, rfl⟩
+
+theorem dwcExit_defs {g save w w1} (h : dwcExit g save w = some w1) : w1.defs = w.defs := by
+  unfold dwcExit at h
+  split at h
+  · unfold tlSet at h
+    split at h
+    · cases h
+    · cases h; rfl
+  · cases h; rfl
+
+theorem leafStep_defs (g : Gid) (c : CtxId) (lf : Leaf) (w : World) (l : Nat) (hne : some l ≠ headOf w c) :
+    (leafStep g c lf w).2.defs l = w.defs l := by
+  cases lf with
+  | obs => simp only [leafStep]; split <;> rfl
+  | set k x => rfl
+  | get k => rfl
+  | del k => rfl
+  | push n => rfl
+  | pop => simp only [leafStep]; split <;> rfl
+  | deftype n =>
+    simp only [leafStep]
+    split
+    · rfl
+    · rename_i hd tl heq
+      have : l ≠ hd := by intro h; apply hne; simp [headOf, heq, h]
+      unfold setEntry; split
+      · rfl
+      · simp [this]
+  | load n =>
+    simp only [leafStep]
+    split
+    · split
+      · rfl
+      · rename_i hd tl heq
+        have : l ≠ hd := by intro h; apply hne; simp [headOf, heq, h]
+        show (setEntry hd n false w).defs l = w.defs l
+        unfold setEntry; split
+        · rfl
+        · simp [this]
+    · rfl
+  | panic => rfl
+
+
+theorem setTag_defs (c : CtxId) (id : Nat) (w : World) : (setTag c id w).defs = w.defs := rfl
+
+theorem newCtx_defs (x : Ctx) (w : World) : (newCtx x w).2.defs = w.defs := rfl
+theorem newCtx_fst (x : Ctx) (w : World) : (newCtx x w).1 = w.nextCtx := rfl
+
+theorem forkCtx_defs (c : CtxId) (w : World) (l : Nat) (hl : l ≠ w.nextLoader) : (forkCtx c w).2.defs l = w.defs l := by
+  simp [forkCtx, newCtx, newLoader, hl]
+
+/-- a micro-step writes an existing loader's entry table only if it is the defining loader (head of the chain) of the context
+    of the stepping goroutine's next body frame -/
+theorem stepG_defs (g : GS) (w : World) (l : Nat) (hl : l < w.nextLoader)
+    (hne : ∀ q c k, g.k = .run q c :: k → some l ≠ headOf w c) : (stepG g w).w.defs l = w.defs l := by
+  obtain ⟨gid, ctx0, st, pn, k⟩ := g
+  have hnl : l ≠ w.nextLoader := Nat.ne_of_lt hl
+  cases st with
+  | false => simp [stepG, tlSet_tlInit, setTag_defs, note, tlFresh]
+  | true =>
+    cases pn with
+    | true =>
+      cases k with
+      | nil => simp [stepG]
+      | cons f k =>
+        cases f with
+        | run p c => simp [stepG]
+        | parent id ctch p root => simp [stepG]
+        | restoreCtx save =>
+          cases h : dwcExit gid save w with
+          | none => simp [stepG, h]
+          | some w1 => simp [stepG, h, dwcExit_defs h]
+        | restoreLoader c l' => simp [stepG, ctxUpd]
+        | catchK => simp [stepG, emit]
+        | endG => simp [stepG, emit, tlCleanup]
+        | endRoot => simp [stepG, emit]
+    | false =>
+      cases k with
+      | nil => simp [stepG]
+      | cons f k =>
+        cases f with
+        | run p c =>
+          cases p with
+          | skip => simp [stepG]
+          | seq p q => simp [stepG]
+          | recover p => simp [stepG]
+          | leaf lf =>
+            have := leafStep_defs gid c lf w l (hne _ c k rfl)
+            by_cases hp : (leafStep gid c lf w).1 = .panicked <;> simp [stepG, panicS, hp, this]
+          | doctx id p =>
+            cases h : dwcEnter gid w.nextCtx (setTag w.nextCtx id (forkCtx c w).2) with
+            | none => simp [stepG, h, panicS, setTag_defs, forkCtx_defs c w l hnl]
+            | some r =>
+              obtain ⟨save, w2⟩ := r
+              simp [stepG, h, (dwcEnter_defs h).1, setTag_defs, forkCtx_defs c w l hnl]
+          | dodo id p =>
+            cases h : dwcEnter gid w.nextCtx (newCtx { loader := [0] } w).2 with
+            | none => simp [stepG, doEnter, newCtx_fst, h, panicS, newCtx_defs]
+            | some r =>
+              obtain ⟨save, w2⟩ := r
+              simp [stepG, doEnter, newCtx_fst, h, (dwcEnter_defs h).1, newCtx_defs]
+          | dotry id p =>
+            cases h : dwcEnter gid w.nextCtx (newCtx { loader := [0] } w).2 with
+            | none => simp [stepG, doEnter, newCtx_fst, h, panicS, newCtx_defs]
+            | some r =>
+              obtain ⟨save, w2⟩ := r
+              simp [stepG, doEnter, newCtx_fst, h, (dwcEnter_defs h).1, newCtx_defs]
+          | doloader p => simp [stepG, ctxUpd, newLoader, hnl]
+          | fork p => simp [stepG, spawnS, forkCtx_defs c w l hnl]
+          | go p =>
+            cases h : tlGet gid ctxKey w with
+            | none => simp [stepG, h, panicS]
+            | some cur => simp [stepG, h, spawnS, forkCtx_defs cur w l hnl]
+        | parent id ctch p root =>
+          cases h : dwcEnter gid w.nextCtx (forkCtx root w).2 with
+          | none => simp [stepG, h, panicS, forkCtx_defs root w l hnl]
+          | some r =>
+            obtain ⟨save, w2⟩ := r
+            simp [stepG, h, (dwcEnter_defs h).1, setTag_defs, forkCtx_defs root w l hnl]
+        | restoreCtx save =>
+          cases h : dwcExit gid save w with
+          | none => simp [stepG, h, panicS]
+          | some w1 => simp [stepG, h, dwcExit_defs h]
+        | restoreLoader c l' => simp [stepG, ctxUpd]
+        | catchK => simp [stepG]
+        | endG => simp [stepG, emit, tlCleanup]
+        | endRoot => simp [stepG, emit]
+
+
 end Pcore.Tls
